@@ -12,6 +12,8 @@ instance of the same class with a listener of its own.  Solver variables: the gu
 
 from __future__ import annotations
 
+import json
+
 import copy
 
 from vfw.ctx import Mismatch
@@ -66,7 +68,8 @@ def tasks(tier):
                     continue
                 if quick and late_kind == "async-late" and g not in (0, 3):
                     continue
-                out.append({"kind": "names", "guard_menu": g, "act_menu": a, "late_kind": late_kind, "quick": quick, "equal": late_kind == "sync" and (g + a) % 2 == 1})
+                out.append({"kind": "names", "guard_menu": g, "act_menu": a, "late_kind": late_kind, "quick": quick, "equal": late_kind == "sync" and (g + a) % 2 == 1,
+                            "private": late_kind == "sync" and g % 2 == 0})
     for g in ((3,) if quick else (3, 4, 6)):
         out.append({"kind": "names", "guard_menu": g, "act_menu": 0, "late_kind": "sync", "quick": quick, "equal": False, "expr": True})
     out.append({"kind": "per-instance", "quick": quick})
@@ -84,7 +87,7 @@ BOUNDS = {
     "quick": "3-state ring driven by 3 consecutive `go` events; the guard name `ok1` and the inline action `act` provided by each of 7 (2 for act) provider sets "
     "over {machine, model, constructor listener, late listener}; `on_enter_state` and `after_go` provided by 3 sets (machine; model + both listeners; late listener only); the "
     "late listener attached before event 0, 1 or 2, once, twice in one call, or again before the next event; a second instance of the class with its own "
-    "listener must stay silent; a listener added to a shallow copy must not reach a later deep copy of the original; the guard also written as the expression 'ok1 and ok2'; guard values symbolic per provider; a separate scenario: 2-3 instances of one class whose constructor listener / model has plain or coroutine callbacks, in 4 creation orders, each driven afterwards; in half of the tasks the model class derives from statemachine.model.Model; a guard given as a plain data attribute (None at attachment, re-assigned before each event) on model / listeners; a variant whose listeners all compare equal and are falsy (define __len__ returning 0); variant in which the late listener's methods are coroutine functions on an otherwise sync machine.",
+    "listener must stay silent; a listener added to a shallow copy must not reach a later deep copy of the original; the guard also written as the expression 'ok1 and ok2'; guard values symbolic per provider; in half of the sync tasks the guard and action names start with an underscore (`_ok1`, `_act`); a separate scenario: 2-3 instances of one class whose constructor listener / model has plain or coroutine callbacks, in 4 creation orders, each driven afterwards; in half of the tasks the model class derives from statemachine.model.Model; a guard given as a plain data attribute (None at attachment, re-assigned before each event) on model / listeners; a variant whose listeners all compare equal and are falsy (define __len__ returning 0); variant in which the late listener's methods are coroutine functions on an otherwise sync machine.",
     "thorough": "all 7x7 guard/action provider sets.",
 }
 OUTSIDE = "callables and properties passed by reference (late listeners resolve names only, documented); more than one late listener"
@@ -166,7 +169,12 @@ def run(ctx, params):
     quick = params["quick"]
     with_flag = params["kind"] == "attr"
     expr = bool(params.get("expr"))
+    # half of the plain-name tasks use underscore-prefixed names: `cond="_ok1"`, `on="_act"` are ordinary attribute names
+    private = bool(params.get("private"))
+    G1, G2, ACT = ("_ok1", "_ok2", "_act") if private else ("ok1", "ok2", "act")
     am = base_am(with_flag, expr)
+    if private:
+        am = json.loads(json.dumps(am).replace('"ok1"', '"_ok1"').replace('"act"', '"_act"').replace("ok1 and ok2", "_ok1 and _ok2"))
     conv_pool = CONV_MENUS if not quick else [CONV_MENUS[i] for i in (0, 4, 7)]
     if expr:
         conv_pool = [CONV_MENUS[0]]
@@ -177,15 +185,15 @@ def run(ctx, params):
         after_prov = conv_pool[(conv_pool.index(enter_prov) + 1) % len(conv_pool)]
     else:
         after_prov = conv_pool[ctx.choose(len(conv_pool), "after_menu")]
-    feats = {"ok1": MENUS[params["guard_menu"]], "act": MENUS[params["act_menu"]], "on_enter_state": enter_prov, "after_go": after_prov}
-    methods = {"machine": [], "model": [], "listener0": [], "listener1": [], "listener2": ["on_enter_state", "after_go", "act", "ok1"]}
+    feats = {G1: MENUS[params["guard_menu"]], ACT: MENUS[params["act_menu"]], "on_enter_state": enter_prov, "after_go": after_prov}
+    methods = {"machine": [], "model": [], "listener0": [], "listener1": [], "listener2": ["on_enter_state", "after_go", ACT, G1]}
     for name, provs in feats.items():
         for p in provs:
             methods[p].append(name)
-            if expr and name == "ok1":
-                methods[p].append("ok2")
+            if expr and name == G1:
+                methods[p].append(G2)
     if expr:
-        methods["listener2"].append("ok2")
+        methods["listener2"].append(G2)
     am["methods"] = methods
     if (params["guard_menu"] + params["act_menu"]) % 2 == 0:
         am["model_base"] = "library"  # class MyModel(statemachine.model.Model) with the callbacks on it
@@ -281,11 +289,11 @@ def run(ctx, params):
                 # never run and its guard value is a (truthy) coroutine object?
                 with ctx.notracing():
                     alt_am = copy.deepcopy(eff)
-                    alt_am["methods"]["listener1"] = [n for n in methods["listener1"] if n == "ok1"]
+                    alt_am["methods"]["listener1"] = [n for n in methods["listener1"] if n == G1]
                 alt = Acceptor(alt_am, script.log, rtc=True, is_async=False)
                 alt.forced_reads = dict(forced)
-                alt.forced_reads[("listener1", "ok1")] = True  # a coroutine object is truthy
-                alt.unless_anyfalsy_group = {p for p in feats["ok1"] if p != "listener1"}
+                alt.forced_reads[("listener1", G1)] = True  # a coroutine object is truthy
+                alt.unless_anyfalsy_group = {p for p in feats[G1] if p != "listener1"}
                 try:
                     alt.call(cur, ["go"], ("ret", ANY) if out[0] == "ret" else out)  # un-awaited coroutines may sit in the result
                     fits = True
@@ -296,8 +304,8 @@ def run(ctx, params):
                         "late-async-listener-on-sync-machine:coroutine-never-awaited",
                         f"coroutine methods {methods['listener1']} of the listener attached with add_listener() are called but never awaited ({mm.kind}: {mm.msg[:160]})",
                     )
-            ctor_group = [p for p in feats["ok1"] if p != "listener1"]
-            if cur == "c" and attached and "listener1" in feats["ok1"]:
+            ctor_group = [p for p in feats[G1] if p != "listener1"]
+            if cur == "c" and attached and "listener1" in feats[G1]:
                 # does the log fit "the late listener's value of an `unless` name is judged on its own"?
                 alt = Acceptor(eff, script.log, rtc=True, is_async=is_async_engine)
                 alt.forced_reads = dict(forced)
@@ -310,7 +318,7 @@ def run(ctx, params):
                 if fits:
                     raise Mismatch(
                         "unless-name-on-late-listener-judged-separately",
-                        f"`unless=ok1` with ok1 on {feats['ok1']}: the name is not truthy on every provider, yet c->a was blocked because the late listener's own value is truthy ({mm.msg[:160]})",
+                        f"`unless=ok1` with the name on {feats[G1]}: the name is not truthy on every provider, yet c->a was blocked because the late listener's own value is truthy ({mm.msg[:160]})",
                     )
             raise
         ctx.check(sm.current_state.id == new, f"wrong-state:{shape}", f"expected {new}, got {sm.current_state.id}")
@@ -322,11 +330,11 @@ def run(ctx, params):
                     raise Mismatch("listener-of-another-instance-called", f"{rec[3]} of the second instance's listener ran while driving the first")
                 if rec[2] == "listener1":
                     ctx.cover("late-listener-called")
-                    if rec[3] == "ok1":
+                    if rec[3] == G1:
                         ctx.cover("guard-on-late-listener")
                 if rec[2] == "model":
                     ctx.cover("model-provider")
-        if any(ti in ((3, 5) if with_flag else (2, 4)) for _e, ti, _s, _t in acc.fired) and len(feats["ok1"]) > 1:
+        if any(ti in ((3, 5) if with_flag else (2, 4)) for _e, ti, _s, _t in acc.fired) and len(feats[G1]) > 1:
             ctx.cover("guard-conjunction-blocked")
         if cur == "a" and with_flag:
             ctx.cover("attribute-guard-passed" if any(ti == 0 for _e, ti, _s, _t in acc.fired) else "attribute-guard-blocked")
